@@ -2,7 +2,7 @@
     Only statements; proofs in Fsx/QidArith.v, QidConc.v, MapperConc.v,
     QidMapProofs.v, Mode.v. *)
 From Coq Require Import NArith String List Bool.
-From P9V Require Import Base.Str gen.ConstGen gen.FsGen Fsx.Readdir Fsx.Qid Fsx.QidArith Fsx.QidConc Fsx.MapperConc
+From P9V Require Import Base.Str gen.ConstGen gen.FsGen20 Fsx.Readdir Fsx.Qid Fsx.QidArith Fsx.QidConc Fsx.MapperConc
      Fsx.QidMap Fsx.QidMapProofs Fsx.Mode Fsx.FsGenSpec20.
 Import ListNotations.
 Open Scope list_scope.
